@@ -84,9 +84,9 @@ def model_candidates(vars_, domain, conds, seed=0, n=10):
         w = (Fraction(domain[k][1]) - Fraction(domain[k][0])) / 50
         s.add(z3.Or(vars_[k] >= ratval(env[k] + w), vars_[k] <= ratval(env[k] - w)))
     verts = []
-    for i in range(24):
+    for i in range(14):
         o = z3.Optimize()
-        o.set('timeout', 1500)
+        o.set('timeout', 1000)
         o.add(*box)
         o.add(*pure)
         obj = 0
@@ -174,7 +174,8 @@ def decide_close(ob, name, p, code, ref, tol, *, domain=None, oracle=None, make_
     tolz = ratval(Fraction(tol))
     goal = (cz == rz) if tol == 0 else (zabs(cz - rz) <= tolz)
     ob_over = over_budget()
-    v = solve.prove(conds, goal, timeout_s=(2 if ob_over else timeout_s), seed=seed)
+    known_bad = (pid, key or ob) in _CONFIRMED
+    v = solve.prove(conds, goal, timeout_s=(2 if (ob_over or known_bad) else timeout_s), seed=seed)
     qs = [qrec('Q1' if tol == 0 else 'Q2', v)]
     _dbg(ob, name, v)
     if v.status == 'unsat':
@@ -232,7 +233,8 @@ def decide_goal(ob, name, conds, goal, *, timeout_s=30, seed=0, oracle=None, arg
     gives no usable model and `domain`/`num_conds` are given, numeric witness candidates (points of the stated box that
     satisfy num_conds and falsify the goal under the true functions) are replayed instead."""
     ob_over = over_budget()
-    v = solve.prove(conds, goal, timeout_s=(2 if ob_over else timeout_s), seed=seed)
+    known_bad = (pid, key or ob) in _CONFIRMED
+    v = solve.prove(conds, goal, timeout_s=(2 if (ob_over or known_bad) else timeout_s), seed=seed)
     qs = [qrec('valid', v)]
     _dbg(ob, name, v)
     if ob_over and v.status != 'unsat':
